@@ -237,10 +237,10 @@ OK = bool(np.allclose(D @ M, np.eye(len(M)), atol=1e-9)); OBSERVED = f"|D M - I|
         return core.discharged("shadow-execution", queries=2)
     obs.append(Ob("C07.controlled.args", "finite", [G + ":ControlledGate.__post_init__"], ctrl_bad, "a control count below 1 is rejected with ValueError"))
 
-    obs.append(vprop.enum_ob("C07.native.enum", FN, lambda: range(5), _check_native,
+    obs.append(vprop.enum_ob("C07.native.enum", FN, lambda: range(6), _check_native,
                              "bounded (time-boxed sympy): unit-fraction powers (q-th power of the root is the original), negative integer powers, matrix exponential "
                              "vs scipy.expm incl. several exp-wrapped gates evaluated one after the other, numeric modifier chains, Power.dagger for fractional "
-                             "exponents away from eigenvalue -1", exhaustive=False, timeout=600))
+                             "exponents away from eigenvalue -1; integer powers incl. 0 and negatives, dagger and controlled in every order (length <= 2) on a non-unitary gate and on 3-qubit gates", exhaustive=False, timeout=600))
 
     def powdag():
         code = """
@@ -323,6 +323,30 @@ def _check_native(mode):
                     return False, f"custom gate built at {start} then replace_params(0.9): {name} is not equal to modifying the directly built gate"
             if not np.allclose(m(g.dagger) @ m(g), np.eye(2), atol=1e-9):
                 return False, f"dagger of a re-parametrised custom gate (built at {start}) is not its inverse"
+        return True, "ok"
+    if mode == 5:
+        # integer powers (negative, zero, positive), dagger and controlled in every order on a NON-UNITARY invertible gate and on gates of 3 qubits:
+        # controlled(k) = diag(I, M), dagger = M^H, power(p) = M^p (inverse for negative p, identity of the gate's own dimension for p = 0)
+        import itertools as it
+        nonunit = CustomGateDefinition("nonunitary", sympy.Matrix([[1, 0.5], [0.25j, 2]]), ())()
+        wide = CustomGateDefinition("threeq", sympy.Matrix(np.diag([1, 1j, -1, 1, 1, -1j, 1, np.exp(0.3j)]).tolist()), ())()
+        bases = [("nonunitary 1-qubit gate", nonunit, 2), ("3-qubit diagonal gate", wide, 2), ("X.controlled(2)", X.controlled(2), 2), ("RX(0.4)", RX(0.4), 3)]
+        mods = {"dagger": (lambda g: g.dagger, lambda M: M.conj().T), "c1": (lambda g: g.controlled(1), lambda M: scipy.linalg.block_diag(np.eye(len(M)), M)),
+                "p-1": (lambda g: g.power(-1), lambda M: np.linalg.inv(M)), "p0": (lambda g: g.power(0), lambda M: np.eye(len(M))),
+                "p2": (lambda g: g.power(2), lambda M: M @ M), "p-2": (lambda g: g.power(-2), lambda M: np.linalg.inv(M @ M))}
+        for name, base, depth in bases:
+            for L in range(1, depth + 1):
+                for ch in it.product(mods, repeat=L):
+                    if sum(1 for c in ch if c == "c1") > 1:
+                        continue
+                    g, M = base, m(base)
+                    for c in ch:
+                        g, M = mods[c][0](g), mods[c][1](M)
+                    got = m(g)
+                    if got.shape != M.shape or got.shape != (2 ** g.num_qubits,) * 2:
+                        return False, f"{name} modified by {ch}: matrix shape {got.shape}, expected {M.shape} (num_qubits = {g.num_qubits})"
+                    if not np.allclose(got, M, atol=1e-8):
+                        return False, f"{name} modified by {ch}: matrix differs from the meaning of the modifiers (max deviation {abs(got - M).max():.3g})"
         return True, "ok"
     for g, e in ((S, 0.5), (T, 0.5), (RZ(0.3), 0.5), (RX(1.1), 1 / 3), (PHASE(0.9), 0.5)):
         A, D = m(g.power(e)), m(g.power(e).dagger)
